@@ -622,21 +622,25 @@ def d8_conditions(chk, repo):
             chk.ob("field.Field._apply_operator::labels-dropped-iff-component-count-changes", ok, "C03.D8",
                    f"labels are reset under `{v.src(st.test)}` = {v.show(cond)}; expected: the tracked component count differs "
                    "from the result array's last axis", v.f, st)
-    # constant-vector operand: incompatible component counts refused
-    cur = ifst
-    found = 0
-    want = v.spec("not (self.array.shape == np.shape(other) or self.nvdim == len(other) or self.nvdim == 1)")
-    while cur.orelse and len(cur.orelse) == 1 and isinstance(cur.orelse[0], ast.If):
-        cur = cur.orelse[0]
-        if always_raises(cur.body):
+    # constant-vector operand: incompatible component counts refused (reached-iff, independent of how the alternatives nest)
+    from ..lib import cond_implies, path_term
+    w = FV(repo, "field.Field._apply_operator")
+    bad_shape = w.spec("not (self.array.shape == np.shape(other) or self.nvdim == len(other) or self.nvdim == 1)")
+    is_seq = w.spec("isinstance(other, (tuple, list, np.ndarray))")
+    others = w.spec("not isinstance(other, self.__class__) and not isinstance(other, numbers.Complex)")
+    hit = None
+    seen = []
+    for r_, n_ in w.raises():
+        if n_ not in ("TypeError", "ValueError"):
             continue
-        for st, cond in _raise_conds(v, cur.body, ("TypeError", "ValueError")):
-            found += 1
-            chk.ob("field.Field._apply_operator::array-operand-shape-guard", v.eq(cond, want), "C03.D8",
-                   f"array-like operands are refused under {v.show(cond)}; expected: neither a per-cell array of the field's "
-                   "shape, nor one value per component, nor a scalar field", v.f, st)
-    chk.ob("field.Field._apply_operator::array-operand-shape-guard-present", found >= 1, "C03.D8",
-           "no refusal of array-like operands with an incompatible component count", v.f, ifst)
+        pt = path_term(w, r_)
+        seen.append(w.show(pt)[:140])
+        if cond_implies(w, pt, w.ev._bool("and", [is_seq, bad_shape])) and \
+                cond_implies(w, w.ev._bool("and", [others, is_seq, bad_shape]), pt):
+            hit = r_
+    chk.ob("field.Field._apply_operator::array-operand-shape-guard", hit is not None, "C03.D8",
+           "array-like operands must be refused exactly when they are neither a per-cell array of the field's shape, nor one "
+           f"value per component, nor combined with a scalar field; refusals are reached under {seen[:4]}", w.f, hit)
     # ---- cross: 3-component operands only
     v = FV(repo, "field.Field.cross", param_types={"other": FIELD})
     ifst, first = cm.field_branch_stmt(v, "other")
